@@ -65,6 +65,20 @@ THEOREMS = [
     "C19_delete_cleans_full_pinned",
     "C19_delete_leftover_witness",
     "C19_delete_cleans_partial",
+    "C19_save_leaves_single_suffix",
+    "C19_both_suffixes_newest_wins",
+    "C19_tree_durable",
+    "C19_tree_no_poison",
+    "C19_tree_frame",
+    "C19_checkpoint_is_main_save",
+    "C19_tree_wf",
+    "C19_tree_refines_flat",
+    "C19_tree_delete_cleans",
+    "C19_tree_delete_witness",
+    "C19_tree_delete_files",
+    "C19_interface_delete_cleans_iff",
+    "C19_pickle_hooks_truthful",
+    "C19_default_hook_not_truthful",
 ]
 RULE = (
     "seeded histories over {save ok | save cloudpickle-only | save unserialisable | save interrupted after k "
@@ -103,19 +117,28 @@ ASSUMPTIONS = [
 EXPLANATION = ""
 EXHAUSTIVE = {"quick": False, "thorough": True}
 
-GRAPHS = ("wf", "fn", "fac")
+GRAPHS = ("wf", "fn", "fac", "old")
 FNAMES = ("default", "explicit")
 # how the class of the loading node is related to the class of the saved node (which relations exist per graph kind)
 RELS = {
     "wf": ("same", "samename", "diffname", "sub"),
     "fn": ("same", "samename", "diffname", "sub", "super"),
     "fac": ("same", "samename", "diffname", "sub", "super"),
+    # the graph's class is a class object that is NO LONGER the one bound in its module (the module was executed again
+    # since): only cloudpickle (by value) can save it; `samename` is the class now bound under that name
+    "old": ("same", "samename", "diffname", "sub", "super"),
 }
+# the storage back end: the library's default ("pickle"), or an instance of a user's subclass handed to
+# save / load / delete_storage / has_saved_content / autoload= (`nohook`: keeps the interface's `_has_leftovers = False`)
+BACKENDS = ("default", "custom", "nohook")
+BY_VALUE = ("fac", "old")  # graph kinds whose class only cloudpickle can serialise: every `ok` save lands as .cpckl
 REL_ID = {"same": 0, "samename": 1, "diffname": 2, "sub": 3, "super": 5}  # `Cls.ofRel` of the model
 CONTENTS = ("ok", "pf", "bf")
 BYTESEL = ("one", "mid", "last")
 MAXK = 9
 FOREIGN_VER = 77
+CHILDREN = ("a", "b")  # children of the Workflow graph that are saved on their own: g/a/, g/b/
+STORES = ("rec", "a", "b")  # the stores next to the graph's own file (`main`)
 
 
 class Crash(BaseException):
@@ -174,12 +197,57 @@ def _alphabet(kind="wf", maxk=None):
     return al
 
 
+def _tree_alphabet(children=CHILDREN):
+    """the ops on the other stores of the graph directory: children saved on their own, the recovery file, runs that
+    make a checkpoint of the graph / fail and leave a recovery file -- each kind of save cut at every call"""
+    al = []
+    for ch in children:
+        al += [["at", ch, "save", c] for c in CONTENTS]
+        al += [["at", ch, "crash", c, k] for c in CONTENTS for k in range(MAXK + 1)]
+        al += [["at", ch, "load"], ["at", ch, "delete"]]
+    al += [["at", "rec", "load"], ["at", "rec", "delete"]]
+    for run, cut in (("ckpt", "ckptcrash"), ("fail", "failcrash")):
+        al += [[run, c] for c in CONTENTS]
+        al += [[cut, c, k] for c in CONTENTS for k in range(MAXK + 1)]
+    return al
+
+
+def _rand_tree_history(rng, length):
+    main = _alphabet("wf")
+    tree = _tree_alphabet()
+    ops = []
+    for _ in range(length):
+        r = rng.random()
+        if r < 0.35:
+            ops.append(rng.choice(main))
+        elif r < 0.55:
+            ops.append(rng.choice([["ckpt", "ok"], ["ckpt", "pf"], ["fail", "ok"], ["fail", "pf"], ["at", "a", "save", "ok"],
+                                   ["at", "b", "save", "pf"], ["save", "ok"], ["save", "pf"]]))
+        elif r < 0.70:
+            ops.append(rng.choice([["delete"], ["at", "a", "delete"], ["at", "b", "delete"], ["at", "rec", "delete"],
+                                   ["at", "rec", "load"], ["at", "a", "load"], ["reopen"], ["load"]]))
+        else:
+            ops.append(rng.choice(tree))
+    return _number(ops)
+
+
 def _number(ops):
     """give every save/crash a distinct version (1, 2, ...) and a byte selector"""
     out = []
     v = 0
     for op in ops:
-        if op[0] == "save":
+        if op[0] == "at" and op[2] in ("save", "crash"):
+            v += 1
+            sub = op[2:]
+            out.append(["at", op[1], "save", sub[1], v] if sub[0] == "save"
+                       else ["at", op[1], "crash", sub[1], v, sub[2], BYTESEL[(v + sub[2]) % 3]])
+        elif op[0] in ("ckpt", "fail"):
+            v += 1
+            out.append([op[0], op[1], v])
+        elif op[0] in ("ckptcrash", "failcrash"):
+            v += 1
+            out.append([op[0], op[1], v, op[2], BYTESEL[(v + op[2]) % 3]])
+        elif op[0] == "save":
             v += 1
             out.append(["save", op[1], v])
         elif op[0] == "crash":
@@ -213,9 +281,56 @@ def gen_cases(rng, tier):
             yield _case(g, f, _number([a]))
             for b in al:
                 yield _case(g, f, _number([a, b]))
+    # nested nodes, checkpoints, recovery files (Workflow graph, default location): every op alone, every op after each
+    # of a few set-ups (good saves in the different stores), every op followed by each delete / load -- thorough: all pairs
+    tree_a, tree_all, main_al = _tree_alphabet(("a",)), _tree_alphabet(), _alphabet("wf")
+    setups = [["save", "ok"], ["at", "a", "save", "ok"], ["fail", "ok"], ["ckpt", "pf"]]
+    if tier != "quick":
+        setups += [["save", "pf"], ["ckpt", "ok"]]
+    closers = [["delete"], ["at", "a", "delete"], ["at", "rec", "delete"], ["at", "rec", "load"], ["at", "a", "load"],
+               ["reopen"]]
+    for a in tree_all:
+        yield _case("wf", "default", _number([a]))
+    if tier == "quick":
+        for a in setups:
+            for b in tree_a + main_al:
+                yield _case("wf", "default", _number([a, b]))
+        for a in tree_a:
+            for b in closers:
+                yield _case("wf", "default", _number([a, b]))
+    else:
+        both = tree_a + [["at", "rec", "load"], ["at", "rec", "delete"]][:0] + main_al
+        for a in both:
+            for b in both:
+                if _is_tree_op(a) or _is_tree_op(b):
+                    yield _case("wf", "default", _number([a, b]))
+        for a in setups:
+            for b in tree_a:
+                for c in closers:
+                    yield _case("wf", "default", _number([a, b, c]))
+    for _ in range(200 if tier == "quick" else 2500):
+        yield _case("wf", "default", _rand_tree_history(rng, rng.randint(3, 8 if tier == "quick" else 12)))
+    # user-defined back ends handed to save / load / delete_storage / has_saved_content / autoload=
+    for be in BACKENDS[1:]:
+        for g in ("wf", "fn"):
+            al = _alphabet(g)
+            for a in al:
+                if g == "wf":
+                    yield {**_case(g, "default", _number([a])), "backend": be}
+                seconds = al if tier != "quick" else [["delete"], ["reopen"], ["load"], ["save", "ok"]]
+                if a[0] in ("save", "crash") and (g == "wf" or tier != "quick"):
+                    for b in seconds:
+                        yield {**_case(g, "default", _number([a, b])), "backend": be}
+        for _ in range(60 if tier == "quick" else 500):
+            g = rng.choice(("wf", "fn", "fac"))
+            yield {**_case(g, rng.choice(FNAMES), _rand_history(rng, rng.randint(2, 7), False, g)), "backend": be}
+    # tree ops are not ops of the other configurations
+    yield _case("fn", "default", [["save", "ok", 1], ["ckpt", "ok", 2], ["at", "a", "load"]])
+    yield _case("wf", "explicit", [["save", "ok", 1], ["fail", "ok", 2], ["at", "rec", "load"]])
+    yield {**_case("wf", "default", [["save", "ok", 1], ["ckpt", "ok", 2], ["at", "a", "load"]]), "backend": "custom"}
     if tier == "quick":
         # the other graph kinds: every (save | interrupted save) followed by every class relation / probe
-        for g in ("fn", "fac"):
+        for g in ("fn", "fac", "old"):
             al = _alphabet(g)
             for a in al:
                 if a[0] in ("save", "crash"):
@@ -224,7 +339,7 @@ def gen_cases(rng, tier):
     if tier == "thorough":
         # length 3: (save | interrupted save) ; anything ; (load | reopen | save ok | save pf | delete | foreign)
         for g, f in configs:
-            if (g, f) == ("fac", "explicit"):
+            if (g, f) == ("fac", "explicit") or g == "old":
                 continue
             al = _alphabet(g)
             first = [a for a in al if a[0] in ("save", "crash")]
@@ -264,10 +379,26 @@ def corpus():
         rels = [["foreign", r] for r in RELS[g]]
         yield _case(g, "explicit", [["save", "ok", 1], *rels, ["delete"], *rels, ["load"]], True)
         yield _case(g, "default", [["save", "pf", 1], *rels, ["reopen"], ["delete"], ["reopen"]], True)
+    # an interrupted CHECKPOINT / an interrupted RECOVERY write / an interrupted save of a child, each next to good
+    # saves of the graph, of its recovery file and of the child
+    good = [["save", "ok", 1], ["fail", "ok", 2], ["at", "a", "save", "ok", 3]]
+    for k in (2, 3, 5):
+        yield _case("wf", "default", [*good, ["ckptcrash", "ok", 4, k, "mid"], ["at", "rec", "load"], ["at", "a", "load"], ["reopen"]])
+        yield _case("wf", "default", [*good, ["failcrash", "pf", 4, k + 2, "mid"], ["at", "rec", "load"], ["load"]])
+        yield _case("wf", "default", [*good, ["at", "a", "crash", "ok", 4, k, "one"], ["at", "a", "load"], ["reopen"]])
+    # a checkpoint that cannot be written fails the run, which then cannot write its recovery file either
+    yield _case("wf", "default", [*good, ["ckpt", "bf", 4], ["load"], ["at", "rec", "load"]])
+    # nested layout: deleting the graph's file leaves the children's; deleting the last child leaves g/ (finding)
+    yield _case("wf", "default", [["at", "a", "save", "ok", 1], ["at", "b", "save", "pf", 2], ["save", "ok", 3], ["delete"],
+                                  ["at", "a", "delete"], ["at", "b", "delete"]])
+    yield _case("wf", "default", [["at", "a", "save", "ok", 1], ["at", "a", "delete"]])
+    # C08-2: a checkpoint that needs cloudpickle after one that did not (the stale .pckl must go)
+    yield _case("wf", "default", [["ckpt", "ok", 1], ["ckpt", "pf", 2], ["reopen"], ["fail", "ok", 3], ["fail", "pf", 4],
+                                  ["at", "rec", "load"]])
     # every cut of each kind of save on top of a good save, all graph kinds
     for c in CONTENTS:
         for k in range(0, MAXK + 1):
-            yield _case(GRAPHS[k % 3], "default",
+            yield _case(GRAPHS[k % len(GRAPHS)], "default",
                         [["save", "ok" if k % 3 else "pf", 1], ["crash", c, 2, k, BYTESEL[k % 3]], ["load"]])
 
 
@@ -277,22 +408,38 @@ def corpus():
 class _Store:
     """where the graph is stored and how the four slots are called"""
 
-    def __init__(self, fname):
+    def __init__(self, fname, backend="default"):
         cwd = Path.cwd()
+        self.fname = fname
+        self.backend = None
+        if backend != "default":
+            from . import nodes_c19 as nc
+
+            self.backend = nc.custom_backends()[backend]()
         if fname == "default":
             self.root = cwd / "g"
-            self.base = "picklestorage"
+            # `StorageInterface._parse_filename`: <lexical path>/<name of the back end's class, lower case>
+            self.base = "picklestorage" if self.backend is None else type(self.backend).__name__.lower()
             self.kw = {}
         else:
             self.root = cwd / "xdir"
             self.base = "custom"
             self.kw = {"filename": "xdir/custom"}
+        if self.backend is not None:
+            self.kw = {**self.kw, "backend": self.backend}
         self.names = {
             self.base + ".pckl": "pckl",
             self.base + ".cpckl": "cpckl",
             self.base + ".pckl.tmp": "pt",
             self.base + ".cpckl.tmp": "ct",
         }
+        # the other stores of the graph directory (default layout only): the recovery file of the root next to the
+        # graph's own file, and the sub-directories of children that are saved on their own
+        self.nested = fname == "default" and backend == "default"
+        self.rec_names = {f"recovery.{suf}": f"r.{sl}" for suf, sl in
+                          (("pckl", "pckl"), ("cpckl", "cpckl"), ("pckl.tmp", "pt"), ("cpckl.tmp", "ct"))}
+        self.child_names = {f"picklestorage.{suf}": sl for suf, sl in
+                            (("pckl", "pckl"), ("cpckl", "cpckl"), ("pckl.tmp", "pt"), ("cpckl.tmp", "ct"))}
 
     def slot(self, path) -> str | None:
         """slot name of a path inside the store, '' for the directory itself, None if elsewhere"""
@@ -300,10 +447,25 @@ class _Store:
         r = str(self.root)
         if p == r:
             return ""
-        if os.path.dirname(p) != r:
-            return None
         n = os.path.basename(p)
-        return self.names.get(n, "?" + n)
+        if os.path.dirname(p) == r:
+            if self.nested and n in self.rec_names:
+                return self.rec_names[n]
+            if self.nested and n in CHILDREN:
+                return n
+            return self.names.get(n, "?" + n)
+        if self.nested and os.path.dirname(os.path.dirname(p)) == r and os.path.basename(os.path.dirname(p)) in CHILDREN:
+            ch = os.path.basename(os.path.dirname(p))
+            return f"{ch}." + self.child_names.get(n, "?" + n)
+        return None
+
+    def files_of(self, which):
+        """{slot: path} of store `which` (main | rec | a | b)"""
+        if which == "main":
+            return {sl: self.root / nm for nm, sl in self.names.items()}
+        if which == "rec":
+            return {sl[2:]: self.root / nm for nm, sl in self.rec_names.items()}
+        return {sl: self.root / which / nm for nm, sl in self.child_names.items()}
 
 
 class _ProxyFile:
@@ -480,6 +642,8 @@ def _graph_class(kind):
 
     from . import nodes_c19 as nc
 
+    if kind == "old":
+        return nc.redefined().G
     return {"wf": Workflow, "fn": nc.G, "fac": nc.factory_classes()[0]}[kind]
 
 
@@ -496,6 +660,8 @@ def _foreign_class(kind, rel):
         return {"samename": nc.redefined_workflow, "sub": lambda: nc.WfSub}[rel]()
     if kind == "fn":
         return {"samename": lambda: nc.redefined().G, "sub": lambda: nc.GSub, "super": lambda: nc.Base}[rel]()
+    if kind == "old":
+        return {"samename": nc.G, "sub": nc.redefined().GSub, "super": nc.redefined().Base}[rel]
     _a, second, sub = nc.factory_classes()
     return {"samename": second, "sub": sub, "super": nc.Base}[rel]
 
@@ -513,11 +679,15 @@ def _relation(saved, loader):
     return "diffname"
 
 
-def _mk_graph(kind, autoload=False):
+def _mk_graph(kind, autoload=False, backend=None):
+    """`autoload`: with the default back end of the constructor (a Workflow's own default; "pickle" for a function node),
+    or with the user's back end instance"""
     cls = _graph_class(kind)
     if kind == "wf":
-        return cls("g") if autoload else cls("g", autoload=None)
-    return cls(label="g", autoload="pickle") if autoload else cls(label="g")
+        if not autoload:
+            return cls("g", autoload=None)
+        return cls("g") if backend is None else cls("g", autoload=backend)
+    return cls(label="g", autoload=backend or "pickle") if autoload else cls(label="g")
 
 
 def _mk_foreign(kind, rel):
@@ -556,6 +726,23 @@ def _set(node, v, content):
         node.add_child(h)
     h.inputs.a = v
     h.inputs.b = {"ok": 0, "pf": (lambda: 0), "bf": threading.Lock()}[content]
+    if _is_graph(node):
+        for lab in CHILDREN:  # what a child was last saved with on its own is not the content of THIS save of the graph
+            if lab in node.children:
+                node.children[lab].inputs.b = 0
+    _forget_outputs(node)
+
+
+def _forget_outputs(node):
+    """what an earlier run left on the outputs (e.g. a lambda) is not part of the content of THIS save"""
+    from pyiron_workflow.channels import NOT_DATA
+
+    for n in ([node, *node.children.values()] if _is_graph(node) else [node]):
+        n._cached_inputs = None  # the cache key of the last run holds that run's inputs
+        if getattr(n, "_cached_internals", None) is not None:
+            n._cached_internals = None  # ... and a composite's the inputs of its children
+        for ch in n.outputs:
+            ch.value = NOT_DATA
 
 
 def _ver(node):
@@ -585,7 +772,7 @@ def _summary(node):
     return repr(s)
 
 
-def _file_state(path, kind):
+def _file_state(path, kind, expected_cls=None):
     import pickle
 
     if not os.path.lexists(path):
@@ -599,26 +786,47 @@ def _file_state(path, kind):
             inst = pickle.load(fh)
     except Exception:  # noqa: BLE001
         return "torn"
-    cls = 0 if type(inst) is _graph_class(kind) else 9
+    cls = 0 if type(inst) is (expected_cls or _graph_class(kind)) else 9
     return f"good:{cls}:{_ver(inst)}"
 
 
 def _fs_obs(store, kind):
+    from . import nodes_c19 as nc
+
     d = {"dir": 1 if store.root.is_dir() else 0}
     inv = {v: k for k, v in store.names.items()}
     for slot in ("pckl", "cpckl", "pt", "ct"):
         d[slot] = _file_state(store.root / inv[slot], kind)
+    known = set(store.names)
+    absent = ["absent"] * 4
+    d["rec"], d["a"], d["b"] = list(absent), [0, *absent], [0, *absent]
+    if store.nested:
+        known |= set(store.rec_names) | set(CHILDREN)
+        fr = store.files_of("rec")
+        d["rec"] = [_file_state(fr[x], kind) for x in ("pckl", "cpckl", "pt", "ct")]
+        for ch in CHILDREN:
+            fc = store.files_of(ch)
+            sub = store.root / ch
+            d[ch] = [1 if sub.is_dir() else 0] + [_file_state(fc[x], kind, nc.Base) for x in ("pckl", "cpckl", "pt", "ct")]
+            if sub.is_dir():
+                more = sorted(n for n in os.listdir(sub) if n not in store.child_names)
+                if more:
+                    d.setdefault("extra_sub", []).extend(f"{ch}/{n}" for n in more)
     extra = []
     if store.root.is_dir():
-        extra = sorted(n for n in os.listdir(store.root) if n not in store.names)
-    d["extra"] = extra
+        extra = sorted(n for n in os.listdir(store.root) if n not in known)
+    d["extra"] = extra + d.pop("extra_sub", [])
     return d
 
 
 def _load_into(node, store, by_name=False):
     """(result token, exception name); `by_name`: address the store by file name (a foreign node has another
     default location)"""
-    kw = {"filename": f"{store.root.name}/{store.base}"} if by_name else store.kw
+    kw = store.kw
+    if by_name:
+        kw = {"filename": f"{store.root.name}/{store.base}"}
+        if store.backend is not None:
+            kw["backend"] = store.backend
     try:
         node.load(**kw)
     except FileNotFoundError:
@@ -636,9 +844,9 @@ def _reopen(kind, store):
     """a new object for the same graph, with auto-load; returns (node, result token, exception name).
     Whether something was loaded is read off the NEW OBJECT (every saved state has a version >= 1), not off the
     file system."""
-    if not store.kw:
+    if store.fname == "default":
         try:
-            n = _mk_graph(kind, autoload=True)
+            n = _mk_graph(kind, autoload=True, backend=store.backend)
         except FileNotFoundError:
             return _mk_graph(kind), "notFound", "FileNotFoundError"
         except TypeError as e:
@@ -670,15 +878,47 @@ def _probe(kind, store):
 
 def _fmt(res, fs, has, ver, steps):
     line = (f"{res} | dir={fs['dir']} pckl={fs['pckl']} cpckl={fs['cpckl']} pt={fs['pt']} ct={fs['ct']}"
+            f" | rec={','.join(fs['rec'])} | a={fs['a'][0]}:{','.join(fs['a'][1:])}"
+            f" | b={fs['b'][0]}:{','.join(fs['b'][1:])}"
             f" | has={has} | node={ver} | steps={','.join(steps)}")
     if fs["extra"]:
         line += " | extra=" + ",".join(fs["extra"])
     return line
 
 
-def _valid(op, kind="wf"):
+def _flat_valid(op):
+    if op[0] == "save":
+        return len(op) == 3 and op[1] in CONTENTS and isinstance(op[2], int)
+    if op[0] == "crash":
+        return len(op) == 5 and op[1] in CONTENTS and isinstance(op[2], int) and isinstance(op[3], int) \
+            and op[4] in BYTESEL
+    return False
+
+
+def _layout(case):
+    """the nested layout (tree ops) exists for the default location and the default back end only"""
+    return case.get("fname", "default") if case.get("backend", "default") == "default" else "custom-backend"
+
+
+def _is_tree_op(op):
+    return isinstance(op, list) and bool(op) and op[0] in ("at", "ckpt", "ckptcrash", "fail", "failcrash")
+
+
+def _valid(op, kind="wf", fname="default"):
     if not isinstance(op, list) or not op:
         return False
+    if _is_tree_op(op):
+        # nested nodes, checkpoints and recovery files exist for the Workflow graph under its default location
+        if kind != "wf" or fname != "default":
+            return False
+        if op[0] == "at":
+            if len(op) < 3 or op[1] not in STORES:
+                return False
+            rest = op[2:]
+            if rest in (["load"], ["delete"]):
+                return True
+            return op[1] in CHILDREN and _flat_valid(rest)
+        return _flat_valid([{"ckpt": "save", "fail": "save", "ckptcrash": "crash", "failcrash": "crash"}[op[0]], *op[1:]])
     if op[0] == "foreign":
         return len(op) == 2 and op[1] in RELS.get(kind, ())
     if op[0] == "save":
@@ -689,74 +929,157 @@ def _valid(op, kind="wf"):
     return op in (["load"], ["delete"], ["reopen"])
 
 
+def _child(node, label):
+    """the child `label` of the graph (added when it is not there: a new process starts with an empty graph)"""
+    from . import nodes_c19 as nc
+
+    ch = node.children.get(label)
+    if ch is None:
+        ch = (nc.Boom if label == "z" else nc.Base)(label=label)
+        node.add_child(ch)
+    return ch
+
+
+def _prepare_run(node, fail):
+    """make the (possibly loaded-while-running) graph runnable; `z` fails iff a recovery file is wanted"""
+    for n in [node, *node.children.values()]:
+        n.running = False
+        n.failed = False
+        n.checkpoint = None
+    _child(node, "z").inputs.a = 1 if fail else 0
+
+
+class _SaveLog:
+    """outcome of every `StorageInterface.save` call made while active (a run may make several)"""
+
+    def __init__(self):
+        self.outcomes: list[str] = []
+
+    def __enter__(self):
+        import pyiron_workflow.storage as st
+
+        log, orig = self, st.StorageInterface.save
+        self._orig = orig
+
+        def save(self_, *a, **k):
+            try:
+                res = orig(self_, *a, **k)
+            except Crash:
+                raise
+            except Exception:
+                log.outcomes.append("saveRaised")
+                raise
+            log.outcomes.append("saved")
+            return res
+
+        st.StorageInterface.save = save
+        return self
+
+    def __exit__(self, *exc):
+        import pyiron_workflow.storage as st
+
+        st.StorageInterface.save = self._orig
+        return False
+
+
+def _store_probe(kind, store, which):
+    """what does loading store `which` into new objects give right now"""
+    from . import nodes_c19 as nc
+
+    root = _mk_graph(kind)
+    try:
+        if which == "rec":
+            root.load(filename=f"{store.root.name}/recovery")
+            return f"loaded:{_ver(root)}", None
+        ch = nc.Base(label=which)
+        root.add_child(ch)
+        ch.load()
+        return f"loaded:{_ver(ch)}", None
+    except FileNotFoundError:
+        return "notFound", "FileNotFoundError"
+    except TypeError as e:
+        return ("classMismatch" if "cannot load, as it has type" in str(e) else "corrupt"), "TypeError"
+    except Exception as e:  # noqa: BLE001
+        return "corrupt", type(e).__name__
+
+
 def run_impl(case):
     kind = case["graph"]
-    store = _Store(case["fname"])
+    store = _Store(case["fname"], case.get("backend", "default"))
     snap = Path.cwd() / "_snap"
     node = _mk_graph(kind)
     obs, recs = [], []
-    stats: dict[str, int] = {f"graph:{kind}": 1, f"fname:{case['fname']}": 1}
+    stats: dict[str, int] = {f"graph:{kind}": 1, f"fname:{case['fname']}": 1,
+                             f"backend:{case.get('backend', 'default')}": 1}
+    tree = any(_is_tree_op(op) and _valid(op, kind, _layout(case)) for op in case["ops"])
 
     def bump(k):
         stats[k] = stats.get(k, 0) + 1
 
+    def complete(action):
+        """run `action` to its end, tracing the file-system calls"""
+        with _Tracer(store) as tr, _SaveLog() as log:
+            exc = None
+            try:
+                action()
+            except Exception as e:  # noqa: BLE001
+                exc = type(e).__name__
+        return tr.events, log.outcomes, exc
+
+    def interrupted(action, cut, bytesel, rec):
+        """run `action`, let the process die after `cut` file-system calls; a new process starts from what it left"""
+        shutil.rmtree(snap, ignore_errors=True)
+        with _Tracer(store, cut=cut, bytesel=bytesel, snap=snap) as tr:
+            try:
+                action()
+                rec["late"] = "returned"
+            except Crash:
+                pass
+            except Exception as e:  # noqa: BLE001
+                rec["late"] = type(e).__name__
+        if not tr.dead:
+            # the save ended without reaching the cut or the `finally` marker: the state is what it left
+            shutil.rmtree(snap, ignore_errors=True)
+            if store.root.is_dir():
+                shutil.copytree(store.root, snap)
+        # the dead process leaves the snapshot behind; a new process starts from it
+        shutil.rmtree(store.root, ignore_errors=True)
+        if snap.is_dir():
+            shutil.copytree(snap, store.root)
+        rec["cut_after"] = tr.events[-1] if tr.events else "nothing"
+        bump("cut:" + rec["cut_after"].split(":")[0])
+        return tr.events
+
     for op in case["ops"]:
-        if not _valid(op, kind):
+        if not _valid(op, kind, _layout(case)):
             obs.append("bad-op")
             recs.append({"op": op, "res": "bad-op"})
             bump("res:bad-op")
             continue
-        rec: dict = {"op": op}
+        rec: dict = {"op": op, "store": "main"}
         steps: list[str] = []
         if op[0] == "save":
             _set(node, op[2], op[1])
-            with _Tracer(store) as tr:
-                try:
-                    node.save(**store.kw)
-                    res = "saved"
-                except Exception as e:  # noqa: BLE001
-                    res = "saveRaised"
-                    rec["exc"] = type(e).__name__
-            steps = tr.events
+            steps, outs, exc = complete(lambda: node.save(**store.kw))
+            res = "saveRaised" if exc else "saved"
+            rec["exc"] = exc
         elif op[0] == "crash":
             _set(node, op[2], op[1])
-            shutil.rmtree(snap, ignore_errors=True)
-            with _Tracer(store, cut=op[3], bytesel=op[4], snap=snap) as tr:
-                try:
-                    node.save(**store.kw)
-                    rec["late"] = "returned"
-                except Crash:
-                    pass
-                except Exception as e:  # noqa: BLE001
-                    rec["late"] = type(e).__name__
-            if not tr.dead:
-                # the save ended without reaching the cut or the `finally` marker: the state is what it left
-                shutil.rmtree(snap, ignore_errors=True)
-                if store.root.is_dir():
-                    shutil.copytree(store.root, snap)
-            # the dead process leaves the snapshot behind; a new process starts from it
-            shutil.rmtree(store.root, ignore_errors=True)
-            if snap.is_dir():
-                shutil.copytree(snap, store.root)
-            steps = tr.events
-            rec["cut_after"] = steps[-1] if steps else "nothing"
+            steps = interrupted(lambda: node.save(**store.kw), op[3], op[4], rec)
             node = _mk_graph(kind)
             res = "crashed"
-            bump("cut:" + rec["cut_after"].split(":")[0])
         elif op[0] == "load":
             before = _summary(node)
             res, exc = _load_into(node, store)
             rec["exc"] = exc
             rec["unchanged"] = _summary(node) == before
         elif op[0] == "delete":
-            with _Tracer(store) as tr:
-                node.delete_storage(**store.kw)
-            steps = tr.events
+            steps, _o, _e = complete(lambda: node.delete_storage(**store.kw))
             res = "deleted"
         elif op[0] == "reopen":
             node, res, exc = _reopen(kind, store)
             rec["exc"] = exc
-        else:  # foreign
+        elif op[0] == "foreign":
             f = _mk_foreign(kind, op[1])
             f_cls = type(f)
             before = _summary(f)
@@ -768,16 +1091,66 @@ def run_impl(case):
             rec["rel"] = _relation(_graph_class(kind), f_cls)
             fid = REL_ID[op[1]] if (rec["rel"] == op[1] and type(f) is f_cls) else 9
             res = f"{tok} foreign={fid}:{_ver(f)}"
+        elif op[0] == "at":
+            which, sub = op[1], op[2:]
+            rec["store"] = which
+            if sub[0] in ("save", "crash"):
+                ch = _child(node, which)
+                ch.inputs.a = sub[2]
+                ch.inputs.b = {"ok": 0, "pf": (lambda: 0), "bf": threading.Lock()}[sub[1]]
+                _forget_outputs(ch)
+                if sub[0] == "save":
+                    steps, _o, exc = complete(ch.save)
+                    res = "saveRaised" if exc else "saved"
+                    rec["exc"] = exc
+                else:
+                    steps = interrupted(ch.save, sub[3], sub[4], rec)
+                    node = _mk_graph(kind)
+                    res = "crashed"
+            elif sub == ["load"]:
+                res, rec["exc"] = _store_probe(kind, store, which)
+            elif which == "rec":
+                steps, _o, _e = complete(lambda: node.delete_storage(filename=f"{store.root.name}/recovery"))
+                res = "deleted"
+            else:
+                steps, _o, _e = complete(_child(node, which).delete_storage)
+                res = "deleted"
+        else:  # a run of the graph: with a checkpoint made by a child / failing, so that a recovery file is written
+            fail = op[0] in ("fail", "failcrash")
+            rec["store"] = "rec" if fail else "main"
+            _set(node, op[2], op[1])
+            _prepare_run(node, fail)
+            if not fail:
+                _holder(node).checkpoint = "pickle"
+            if op[0] in ("ckpt", "fail"):
+                steps, outs, exc = complete(node.run)
+                res = "+".join(outs) if outs else "nosave"
+                rec["exc"] = exc
+                rec["saves"] = outs
+            else:
+                steps = interrupted(node.run, op[3], op[4], rec)
+                node = _mk_graph(kind)
+                res = "crashed"
+            if op[0] in ("ckpt", "fail"):
+                _holder(node).checkpoint = None
         fs = _fs_obs(store, kind)
         probe = _probe(kind, store)
+        if tree:
+            for which in STORES:
+                probe[which], probe[which + "_exc"] = _store_probe(kind, store, which)
         rec.update(res=res, fs=fs, ver=_ver(node), steps=steps, probe=probe)
         recs.append(rec)
         obs.append(_fmt(res, fs, probe["has"], rec["ver"], steps))
-        bump("op:" + op[0] + (":" + op[1] if op[0] in ("save", "crash", "foreign") else ""))
+        name = op[0] if op[0] != "at" else f"at:{op[1]}:{op[2]}"
+        bump("op:" + name + (":" + op[1] if op[0] in ("save", "crash", "foreign", "ckpt", "ckptcrash", "fail", "failcrash") else ""))
         bump(f"state:{'final' if any(fs[x] != 'absent' for x in ('pckl', 'cpckl')) else 'nofinal'}"
              f"+{'leftover' if any(fs[x] != 'absent' for x in ('pt', 'ct')) else 'clean'}")
         if all(fs[x] != "absent" for x in ("pckl", "cpckl")):
             bump("state:both-suffixes")
+        if tree:
+            present = [w for w, f in (("main", [fs[x] for x in ("pckl", "cpckl", "pt", "ct")]), ("rec", fs["rec"]),
+                                      ("a", fs["a"][1:]), ("b", fs["b"][1:])) if any(x != "absent" for x in f)]
+            bump("stores:" + ("+".join(present) or "none"))
         bump("res:" + res.split(":")[0].split(" ")[0])
         if op[0] == "save":
             bump("variant:" + ("atomic" if any(s.startswith("replace") for s in steps) else "inPlace"))
@@ -798,6 +1171,15 @@ def model_input(case, impl=None):
     kind = case.get("graph", "wf")
     lines = []
     for op in case["ops"]:
+        if _is_tree_op(op) and _valid(op, kind, _layout(case)):
+            flat = [str(x) for x in op]
+            if op[0] == "at" and op[2] == "crash" or op[0] in ("ckptcrash", "failcrash"):
+                flat = flat[:-1]  # the byte selector does not exist in the model
+            lines.append(" ".join(flat))
+            continue
+        if _is_tree_op(op):
+            lines.append("malformed")  # no such layout for this graph kind / file name
+            continue
         if not _valid(op, kind):
             # the driver is given the raw line and must reject it itself; only a relation that exists but for which
             # this graph kind has no real classes is withheld
@@ -809,7 +1191,7 @@ def model_input(case, impl=None):
             continue
         if op[0] in ("save", "crash"):
             # a node whose class comes out of a factory function can only be cloudpickled
-            c = "pf" if (kind == "fac" and op[1] == "ok") else op[1]
+            c = "pf" if (kind in BY_VALUE and op[1] == "ok") else op[1]
             if op[0] == "save":
                 lines.append(f"save {c} {op[2]}")
             else:
@@ -821,7 +1203,7 @@ def model_input(case, impl=None):
     return lines
 
 
-_TAGS = {"I": "inPlace", "A": "atomicReplace", "S": "atomicSweep"}
+_TAGS = {"I": "inPlace", "A": "atomicReplace", "S": "atomicSweep", "C": "atomicSweepClimb"}
 _ALLOWED = set(_TAGS.values())
 _SEEN = {"several": 0, **{v: 0 for v in _TAGS.values()}}
 
@@ -853,6 +1235,15 @@ def diff(case, impl, model):
     view = list(impl["obs"])
     st = _streams(model)
     match = {v for v, s in st.items() if s == view}
+    if case.get("backend") == "nohook":
+        # a user's back end that keeps the interface's default `_has_leftovers = False`: its delete cannot sweep leftovers
+        # (C19_interface_delete_cleans_iff); everything else as the library's own back end
+        if "atomicReplace" in match:
+            _SEEN["nohook"] = _SEEN.get("nohook", 0) + 1
+            return None
+        d = {v: _first_diff(view, st[v]) for v in ("atomicReplace",)}
+        d["expected"] = "atomicReplace (back end without the leftover hook)"
+        return d
     ok = match & _ALLOWED
     if ok:
         _ALLOWED.intersection_update(match)
@@ -889,14 +1280,30 @@ def _f(clause, trigger, state, k, op, detail, **more):
     return {"clause": clause, "detail": f"after op #{k} {op}: {detail}", "signature": sig}
 
 
+def _g_empty(fs):
+    """nothing at all is left in the graph directory"""
+    return (all(fs[x] == "absent" for x in ("pckl", "cpckl", "pt", "ct")) and all(x == "absent" for x in fs["rec"])
+            and fs["a"][0] == 0 and fs["b"][0] == 0 and not fs["extra"])
+
+
+def _store_files(fs, which):
+    if which == "main":
+        return {x: fs[x] for x in ("pckl", "cpckl", "pt", "ct")}
+    vals = fs["rec"] if which == "rec" else fs[which][1:]
+    return dict(zip(("pckl", "cpckl", "pt", "ct"), vals))
+
+
 def oracle(case, r):
     """The property text, clause by clause, on what the implementation showed -- after EVERY op, for the explicit
-    load probe and (default file name) for the auto-load probe = constructing a new graph object of the same label.
+    load probe and (default file name) for the auto-load probe = constructing a new graph object of the same label;
+    with nested nodes / checkpoints / recovery files: for EVERY store of the graph directory (the graph's own file,
+    the recovery file, the files of children saved on their own), each with its own promise.
 
-    1/3  a completed save (or a later interrupted one that was nevertheless written completely) is what loads;
+    1/3  a completed save (or a later interrupted one that was nevertheless written completely) is what loads --
+         a checkpoint is a save of the graph's own file, a failed run a save of the recovery file;
     2    no partial file where load / auto-load picks it up;  2'  constructing the graph never raises (an
          exception out of the constructor IS a poisoned auto-load, whatever left it behind);
-    4    delete removes the files (final names and leftovers of interrupted saves) and the directory it emptied;
+    4    delete removes the files (final names and leftovers of interrupted saves) and every directory it emptied;
     5    a node whose class is not the very class that was saved is refused and left exactly as it was.
     """
     fails = []
@@ -908,8 +1315,9 @@ def oracle(case, r):
             sigs.add(key)
             fails.append(f)
 
-    expected = None  # version of the newest completed save since the last delete
-    inflight: set[int] = set()  # versions of interrupted saves (serialisable content) after it
+    # per store: version of the newest completed save since the last delete, and the versions of interrupted saves
+    # (serialisable content) after it
+    prom = {w: {"exp": None, "inf": set()} for w in ("main", *STORES)}
     default = case["fname"] == "default"
     prev_fs = None
     for k, rec in enumerate(r.get("recs", [])):
@@ -919,66 +1327,101 @@ def oracle(case, r):
         n0 = len(fails)
         before_fs, prev_fs = prev_fs, rec["fs"]
         pr, fs = rec["probe"], rec["fs"]
-        trig = {"save": "save" if res == "saved" else "save-failed", "crash": "crash"}.get(op[0], op[0])
         cut = rec.get("cut_after", "")
-        if op[0] == "save" and res == "saved":
-            expected, inflight = op[2], set()
-        elif op[0] == "crash" and op[1] != "bf":
-            inflight.add(op[2])
-        elif op[0] == "delete":
-            expected, inflight = None, set()
+        target = rec.get("store", "main")
+        flat = op[2:] if op[0] == "at" else op
+        kindop = {"ckpt": "save", "fail": "save", "ckptcrash": "crash", "failcrash": "crash"}.get(flat[0], flat[0])
+        first_save = (rec.get("saves") or [res])[0] if op[0] in ("ckpt", "fail") else res
+        trig = {"save": "save" if first_save == "saved" else "save-failed", "crash": "crash"}.get(kindop, kindop)
+        if op[0] in ("ckpt", "ckptcrash", "fail", "failcrash"):
+            trig = {"save": op[0], "save-failed": op[0] + "-failed", "crash": op[0]}[trig]
+        completed = kindop == "save" and first_save == "saved"
+        if completed:
+            prom[target] = {"exp": flat[2], "inf": set()}
+        elif kindop == "crash" and flat[1] != "bf":
+            prom[target]["inf"].add(flat[2])
+        elif kindop == "delete":
+            prom[target] = {"exp": None, "inf": set()}
 
-        probes = [("load", pr["load"], pr["load_exc"])]
-        if default:
-            probes.append(("auto", pr["auto"], pr["auto_exc"]))
-
-        # clause 1 / 3: the last completed save (or a later, fully written, interrupted one) is what loads
-        if expected is not None:
-            allowed = {f"loaded:{expected}"}
-            if trig != "save":
-                allowed |= {f"loaded:{v}" for v in inflight}
+        for which in ("main", *STORES):
+            if which == "main":
+                probes = [("load", pr["load"], pr["load_exc"])]
+                if default:
+                    probes.append(("auto", pr["auto"], pr["auto_exc"]))
+            elif which in pr:
+                probes = [("load", pr[which], pr[which + "_exc"])]
+            else:
+                continue
+            expected, inflight = prom[which]["exp"], prom[which]["inf"]
+            mine = which == target
+            more = {} if which == "main" else {"store": which}
+            wtrig = trig if mine else f"{trig}@{target}"
+            nw = len(fails)
+            # clause 1 / 3: the last completed save (or a later, fully written, interrupted one) is what loads
+            if expected is not None:
+                allowed = {f"loaded:{expected}"}
+                if not (mine and completed):
+                    allowed |= {f"loaded:{v}" for v in inflight}
+                for via, tok, exc in probes:
+                    if tok not in allowed:
+                        clause = "last-save-not-returned" if (mine and completed) else "previous-save-lost"
+                        add(_f(clause, wtrig, _state_of(tok), k, op,
+                               f"{via} of store `{which}` gives {tok} ({exc}); expected one of {sorted(allowed)}; files {fs}",
+                               via=via, cut=cut, **more))
+                        break
+            # clause 2: nothing torn where load / auto-load would pick it up
             for via, tok, exc in probes:
-                if tok not in allowed:
-                    clause = "last-save-not-returned" if trig == "save" else "previous-save-lost"
-                    add(_f(clause, trig, _state_of(tok), k, op,
-                           f"{via} gives {tok} ({exc}); expected one of {sorted(allowed)}; files {fs}",
-                           via=via, cut=cut))
+                if tok == "corrupt":
+                    add(_f("partial-file-picked-up", wtrig, "truncated", k, op,
+                           f"{via} of store `{which}` raises {exc}; files {fs}", via=via, cut=cut, **more))
                     break
-        # clause 2: nothing torn where load / auto-load would pick it up
-        for via, tok, exc in probes:
-            if tok == "corrupt":
-                add(_f("partial-file-picked-up", trig, "truncated", k, op,
-                       f"{via} raises {exc}; files {fs}", via=via, cut=cut))
-                break
-        # clause 2': constructing a graph object of the same label never raises -- with a good save it comes up with
-        # it (clause 1), without one it comes up fresh or with an interrupted save that was written completely
-        if default and pr["auto_exc"] is not None and pr["auto"] != "corrupt" and len(fails) == n0:
-            add(_f("auto-load-poisoned", trig, _state_of(pr["auto"]), k, op,
-                   f"constructing the graph again raises {pr['auto_exc']} ({pr['auto']}); "
-                   f"has_saved_content={pr['has']}; files {fs}", via="auto", cut=cut, exc=pr["auto_exc"]))
-        if expected is None and len(fails) == n0:
-            ok_none = {"fresh", "notFound"} | {f"loaded:{v}" for v in inflight}
-            for via, tok, exc in probes:
-                if tok not in ok_none and not (via == "auto" and exc is not None):
-                    add(_f("state-from-nowhere", trig, _state_of(tok), k, op,
-                           f"{via} gives {tok} although no save completed since the last delete; files {fs}", via=via))
-                    break
+            # clause 2': constructing a graph object of the same label never raises -- with a good save it comes up
+            # with it (clause 1), without one it comes up fresh or with an interrupted save that was written completely
+            if which == "main" and default and pr["auto_exc"] is not None and pr["auto"] != "corrupt" \
+                    and len(fails) == nw:
+                add(_f("auto-load-poisoned", wtrig, _state_of(pr["auto"]), k, op,
+                       f"constructing the graph again raises {pr['auto_exc']} ({pr['auto']}); "
+                       f"has_saved_content={pr['has']}; files {fs}", via="auto", cut=cut, exc=pr["auto_exc"]))
+            if expected is None and len(fails) == nw:
+                ok_none = {"fresh", "notFound"} | {f"loaded:{v}" for v in inflight}
+                for via, tok, exc in probes:
+                    if tok not in ok_none and not (via == "auto" and exc is not None):
+                        add(_f("state-from-nowhere", wtrig, _state_of(tok), k, op,
+                               f"{via} of store `{which}` gives {tok} although no save of it completed since its last "
+                               f"delete; files {fs}", via=via, **more))
+                        break
         # clause 4: delete removes the files -- the save files and what interrupted saves left next to them -- and
-        # the directory it emptied
-        if op[0] == "delete":
-            left = [x for x in ("pckl", "cpckl") if fs[x] != "absent"]
-            left_tmp = [x for x in ("pt", "ct") if fs[x] != "absent"]
+        # every directory it emptied
+        if kindop == "delete":
+            mine_fs = _store_files(fs, target)
+            more = {} if target == "main" else {"store": target}
+            left = [x for x in ("pckl", "cpckl") if mine_fs[x] != "absent"]
+            left_tmp = [x for x in ("pt", "ct") if mine_fs[x] != "absent"]
+            probe_tok = pr["load"] if target == "main" else pr.get(target, "notFound")
             if left:
-                add(_f("delete-leaves-files", "delete", "present", k, op, f"files {fs}"))
+                add(_f("delete-leaves-files", "delete", "present", k, op, f"files {fs}", **more))
+            elif left_tmp and case.get("backend") == "nohook" and not any(
+                    (_store_files(before_fs, target) if before_fs else {}).get(x, "absent") != "absent"
+                    for x in ("pckl", "cpckl")):
+                # the user's back end does not tell the interface about its leftovers: `delete` never reaches `_delete`
+                # (C19_interface_delete_cleans_iff) -- not the library's doing
+                pass
             elif left_tmp:
-                had_final = bool(before_fs) and any(before_fs[x] != "absent" for x in ("pckl", "cpckl"))
+                bf_ = _store_files(before_fs, target) if before_fs else None
+                had_final = bool(bf_) and any(bf_[x] != "absent" for x in ("pckl", "cpckl"))
                 add(_f("delete-leaves-files", "delete", "leftover", k, op,
                        f"what an interrupted save left behind is still there, and so is the directory: files {fs}",
-                       had_final=had_final))
-            elif fs["dir"] == 1 and not fs["extra"]:
-                add(_f("delete-leaves-empty-directory", "delete", "present", k, op, f"files {fs}"))
-            elif pr["load"] != "notFound":
-                add(_f("delete-leaves-files", "delete", "loadable", k, op, f"load gives {pr['load']}"))
+                       had_final=had_final, **more))
+            elif target in CHILDREN and fs[target][0] == 1 and not any(e.startswith(target + "/") for e in fs["extra"]):
+                add(_f("delete-leaves-empty-directory", "delete", "present", k, op, f"files {fs}", **more))
+            elif fs["dir"] == 1 and _g_empty(fs):
+                # the graph directory holds nothing any more; if it did before, this delete emptied it
+                was_empty = before_fs is not None and before_fs["dir"] == 1 and _g_empty(before_fs)
+                if not was_empty:
+                    add(_f("delete-leaves-empty-directory", "delete", "ancestor" if target in CHILDREN else "present",
+                           k, op, f"the delete emptied the graph directory and left it behind: files {fs}", **more))
+            elif probe_tok != "notFound":
+                add(_f("delete-leaves-files", "delete", "loadable", k, op, f"load gives {probe_tok}", **more))
         # clause 5: a node of another class -- anything but the very same class object -- is refused and not altered
         if op[0] == "foreign" and op[1] != "same":
             tok = rec["foreign_res"]
@@ -993,6 +1436,7 @@ def oracle(case, r):
                 add(_f("class-check", "foreign", "altered", k, op, f"refused ({tok}) but the node changed", rel=op[1]))
         # the live node's own load agrees with what was promised and does not corrupt it when refused
         if op[0] == "load":
+            expected, inflight = prom["main"]["exp"], prom["main"]["inf"]
             if expected is not None and len(fails) == n0 \
                     and res not in {f"loaded:{expected}"} | {f"loaded:{v}" for v in inflight}:
                 add(_f("previous-save-lost", "load", _state_of(res), k, op, f"live load gives {res}"))
@@ -1000,7 +1444,7 @@ def oracle(case, r):
                 add(_f("refused-load-alters-node", "load", "altered", k, op, f"load gave {res} but the node changed"))
         # after a violation the promise bookkeeping no longer means anything -- except after a delete, which promises
         # nothing about what follows
-        if len(fails) > n0 and op[0] != "delete":
+        if len(fails) > n0 and kindop != "delete":
             break
     return fails
 
@@ -1013,9 +1457,15 @@ def shrink_candidates(case):
         yield {**case, "graph": "wf"}
     if case["fname"] != "default":
         yield {**case, "fname": "default"}
+    if case.get("backend") == "custom":
+        yield {k: v for k, v in case.items() if k != "backend"}
     for i, op in enumerate(ops):
-        if op and op[0] == "crash" and len(op) == 5 and op[3] > 0:
+        if op and op[0] in ("crash", "ckptcrash", "failcrash") and len(op) == 5 and op[3] > 0:
             yield {**case, "ops": ops[:i] + [[*op[:3], op[3] - 1, op[4]]] + ops[i + 1:]}
+        if op and op[0] == "at" and len(op) == 7 and op[2] == "crash" and op[5] > 0:
+            yield {**case, "ops": ops[:i] + [[*op[:5], op[5] - 1, op[6]]] + ops[i + 1:]}
+        if op and op[0] == "at" and op[1] == "b":
+            yield {**case, "ops": ops[:i] + [["at", "a", *op[2:]]] + ops[i + 1:]}
 
 
 # ----------------------------------------------------------------------------- extended search
@@ -1060,7 +1510,7 @@ def extended_search(rng, findings):
 
     # stage 1: length <= 2, every graph kind, default name (+ Workflow with an explicit name)
     stage1 = []
-    for g, fn in [(g, "default") for g in GRAPHS] + [("wf", "explicit")]:
+    for g, fn in [(g, "default") for g in GRAPHS] + [("wf", "explicit")]:  # wf, fn, fac, old
         al = _alphabet(g)
         for a in al:
             for b in al:
@@ -1087,6 +1537,25 @@ def extended_search(rng, findings):
                 return report(best)
             chunk = []
     if chunk:
+        best = first_failure(chunk)
+        if best is not None:
+            return report(best)
+    # stage 3: nested nodes / checkpoints / recovery files: every pair over the whole tree alphabet
+    both = _tree_alphabet() + _alphabet("wf")
+    stage3 = [_case("wf", "default", _number([a, b])) for a in both for b in both if _is_tree_op(a) or _is_tree_op(b)]
+    best = first_failure(stage3)
+    if best is not None:
+        return report(best)
+    # stage 4: length 3 for the other graph kinds (importable function node, factory-made class, re-defined class)
+    for g in GRAPHS[1:]:
+        al = _alphabet(g, maxk)
+        chunk = []
+        for a in al:
+            if a[0] not in ("save", "crash"):
+                continue  # a history that matters starts by writing something
+            for b in al:
+                for c in al:
+                    chunk.append(_case(g, "default", _number([a, b, c])))
         best = first_failure(chunk)
         if best is not None:
             return report(best)
